@@ -56,6 +56,7 @@ FSET = ("fset",)          # a set of features as a value (outside the functions 
 SETREF, STORE = ("setref",), ("store",)
 INTSTR = ("intstr",)     # Union[int, str] that is only ever printed or compared with integers: carried as its str()     # a set object lives in a store of sets (aliasing!); a value of type set is its index
 FLOAT = ("float",)        # a Python float carried as its repr (the VFloat payload)
+XML = ("Element",)        # xml.etree.ElementTree.Element as the tree value of Format/Xml.v (tag, attrib, text, children)
 ANY, ATTRIBUTE = ("any",), ("Attribute",)      # Any / Dict[str, Any] is a JSON-like value (aval)
 
 
@@ -78,7 +79,7 @@ def Dict(k, v):
 def coq_ty(t):
     k = t[0]
     simple = {"int": "Z", "bool": "bool", "str": "string", "Feature": "lfeat", "Relation": "lrel",
-              "FeatureModel": "fm", "Constraint": "ctc", "AST": "node", "Node": "node", "ndata": "ndata",
+              "FeatureModel": "fm", "Constraint": "ctc", "AST": "node", "Node": "node", "ndata": "ndata", "Element": "xml",
               "astop": "astop", "ftype": "ftype", "any": "aval", "Attribute": "attr", "char": "ascii", "float": "string", "Domain": "domain", "Range": "range",
               "setref": "nat", "store": "py_store", "fset": "(list lfeat)", "PFeature": "feature", "PRelation": "relation",
               "metric": "py_metric", "hund": "Z", "ratio": "Z", "mean": "(Z * Z)", "half": "Z", "intstr": "string"}
@@ -195,6 +196,9 @@ ATTRS = {
     ("Node", "left"): ("(n_left {0})", Opt(NODE)),
     ("Node", "right"): ("(n_right {0})", Opt(NODE)),
     ("Node", "data"): ("(n_data {0})", NDATA),
+    ("Element", "tag"): ("(x_tag {0})", STR),
+    ("Element", "text"): ("(x_text {0})", Opt(STR)),
+    ("Element", "attrib"): ("(x_attrs {0})", Dict(STR, STR)),
     ("Feature", "is_abstract"): ("(f_abstract (info (fst {0})))", ANY),
     ("Feature", "attributes"): ("(f_attrs (info (fst {0})))", List(ATTRIBUTE)),
     ("Attribute", "name"): ("(a_name {0})", STR),
@@ -277,7 +281,7 @@ def parse_ann(a, ctx):
         return NONE
     if isinstance(a, ast.Name):
         m = {"int": INT, "bool": BOOL, "str": STR, "float": HUND, "Feature": FEATURE, "Relation": RELATION,
-             "FeatureModel": FMODEL, "Constraint": CTC, "AST": ASTT, "Node": NODE, "Any": ANY,
+             "FeatureModel": FMODEL, "Constraint": CTC, "AST": ASTT, "Node": NODE, "Any": ANY, "Element": XML,
              "Attribute": ATTRIBUTE, "VariabilityModel": FMODEL, "Domain": DOMAIN, "Range": RANGE}      # execute(model) casts to FeatureModel
         if a.id in OBJECTS:
             return ("obj", a.id)
@@ -306,20 +310,24 @@ def parse_ann(a, ctx):
 
 
 class Env:
-    def __init__(self, vars_=None, narrow=None, loop_k=None, leaked=None, escaped=None):
+    def __init__(self, vars_=None, narrow=None, loop_k=None, leaked=None, escaped=None, fresh_nodes=None):
         self.vars = dict(vars_ or {})        # name -> (code, type)
         self.narrow = dict(narrow or {})     # unparse(expr) -> (code, type)
         self.loop_k = loop_k                 # continuation of `continue` / end of a loop body
         self.leaked = set(leaked or ())      # names first bound inside a loop that has ended
         self.escaped = set(escaped or ())    # builder mode: objects stored / passed on / returned on this path
+        # (name, 'left'|'right', ...) paths that hold a Node object created on this path by a syntactic Node(...) call and
+        # not read as a value since: a field of such an object may be assigned (no other reference to it exists)
+        self.fresh_nodes = set(fresh_nodes or ())
 
     def copy(self):
-        return Env(self.vars, self.narrow, self.loop_k, self.leaked, self.escaped)
+        return Env(self.vars, self.narrow, self.loop_k, self.leaked, self.escaped, self.fresh_nodes)
 
     def bind(self, name, code, ty):
         e = self.copy()
         e.vars[name] = (code, ty)
         e.leaked.discard(name)
+        e.fresh_nodes = {p for p in e.fresh_nodes if p[0] != name}
         for k in [k for k in e.narrow if k == name or k.startswith(name + ".")]:
             del e.narrow[k]
         return e
@@ -482,6 +490,9 @@ class Translator:
     def e_Name(self, e, env):
         if e.id in env.vars:
             code, ty = env.vars[e.id]
+            if ty == NODE and env.fresh_nodes:
+                for p_ in [p_ for p_ in env.fresh_nodes if p_[0] == e.id]:
+                    env.fresh_nodes.discard(p_)      # the object (or a part of it) is read as a value: another reference may exist from now on
             if PURE[0] and not self.pointer_use and (ty in (PFEATURE, PRELATION, ATTRIBUTE) or (
                     ty[0] in ("opt", "maybe", "list") and ty[1] in (PFEATURE, PRELATION, ATTRIBUTE))):
                 env.escaped.add(e.id)        # the object is stored, passed on or returned: it may not be mutated afterwards
@@ -892,7 +903,7 @@ class Translator:
             return self.lift([v], lambda c: Val(f"(negb (py_is_nil {c[0]}))", BOOL))
         if v.ty == ANY:
             return self.lift([v], lambda c: Val(f"(aval_truthy {c[0]})", BOOL))
-        if v.ty in (FEATURE, RELATION, FMODEL, CTC) and not v.eff:
+        if v.ty in (FEATURE, RELATION, FMODEL, CTC, ASTT, NODE) and not v.eff:
             return Val("true", BOOL)          # an object without __bool__ / __len__ (and, by its annotation, not None)
         if v.ty == INT:
             return self.lift([v], lambda c: Val(f"(negb (Z.eqb {c[0]} 0%Z))", BOOL))
@@ -1014,6 +1025,8 @@ class Translator:
             return v
         if v.ty == STR:
             return self.lift([v], lambda c: Val(f"(list_ascii_of_string {c[0]})", List(CHAR)))
+        if v.ty == XML:
+            return self.lift([v], lambda c: Val(f"(x_children {c[0]})", List(XML)))
         if v.ty == ANY:
             return self.coerce(v, List(ANY), e)
         if v.ty[0] == "tuple" and len(set(v.ty[1])) == 1 and v.code.startswith("(") and not v.eff:
@@ -1255,6 +1268,8 @@ class Translator:
                 # Node(<a JSON value>): a string, a number or a Boolean as term data; anything else is rejected before
                 self.cur.intrinsic_eff = True
                 dv = self.lift([d], lambda c: Val(f"(py_ndata_of_any {c[0]})", NDATA, True))
+            elif d.ty == STR:
+                dv = self.lift([d], lambda c: Val(f"(DStr {c[0]})", NDATA))
             else:
                 dv = self.coerce(d, NDATA, e)
             kids = [self.coerce(self.tr(a, env), NODE, e) for a in args[1:]]
@@ -1496,8 +1511,14 @@ class Translator:
             k = self.coerce(self.tr(e.slice, env), STR, e)
             self.cur.intrinsic_eff = True
             return self.lift([v, k], lambda c: Val(f"(aval_get {c[0]} {c[1]})", ANY, True))
+        if v.ty == XML:
+            v = self.lift([v], lambda c: Val(f"(x_children {c[0]})", List(XML)))      # element[i], element[a:]: its children
         if v.ty[0] != "list":
             fail(e, f"subscript of {v.ty}")
+        if isinstance(e.slice, ast.Slice) and e.slice.step is None and e.slice.upper is None \
+                and isinstance(e.slice.lower, ast.Constant) and isinstance(e.slice.lower.value, int) and e.slice.lower.value >= 0:
+            n = e.slice.lower.value
+            return self.lift([v], lambda c: Val(f"(skipn {n} {c[0]})", v.ty))           # l[n:]
         if isinstance(e.slice, ast.Slice):
             if e.slice.step is not None or e.slice.lower is None or e.slice.upper is None:
                 fail(e, "unsupported slice")
@@ -1688,7 +1709,7 @@ class Translator:
         self.seen_decl.add(name)
         return new
 
-    def assign(self, name, v, rest, env, k, ctx):
+    def assign(self, name, v, rest, env, k, ctx, fresh_paths=()):
         if name in self.maybe_vars:
             ty = self.note_type(name, v.ty, ctx)
             v = self.coerce(v, ty, ctx)
@@ -1703,8 +1724,48 @@ class Translator:
         n = self.fresh(name + "_")
 
         def cont(code):
-            return f"(let {n} := {code} in {self.block(rest, env.bind(name, n, ty), k)})"
+            en = env.bind(name, n, ty)
+            if ty == NODE:
+                en.fresh_nodes.update(fresh_paths)
+            return f"(let {n} := {code} in {self.block(rest, en, k)})"
         return self.wrap(v, cont)
+
+    @staticmethod
+    def is_node_ctor(e):
+        return isinstance(e, ast.Call) and isinstance(e.func, ast.Name) and e.func.id == "Node" and not e.keywords
+
+    def node_fresh_paths(self, name, e):
+        """the paths under `name` that hold objects created by the syntactic Node(...) call e itself"""
+        if not self.is_node_ctor(e):
+            return ()
+        out = [(name,)]
+        for fld, a in zip(("left", "right"), e.args[1:3]):
+            out += [(name, fld) + p_[1:] for p_ in self.node_fresh_paths(name, a)]
+        return tuple(out)
+
+    def assign_node_field(self, name, path, value, rest, env, k, ctx):
+        """X.left = e / X.left.right = e on a Node object that this path created and has not handed on: a rebinding of X"""
+        if self.loop_mutations:
+            fail(ctx, "field assignment on a node inside a loop")
+        v = self.coerce(self.tr(value, env), NODE, ctx)
+        if (name,) + tuple(path[:-1]) not in env.fresh_nodes:
+            fail(ctx, f"assignment to a field of {ast.unparse(ctx.targets[0].value)}, which may be shared (not created here by Node(...), or read since)")
+        code0 = env.vars[name][0]
+        if len(path) == 1:
+            new = self.lift([v], lambda c: Val(f"(py_set_{path[0]} {code0} {c[0]})", NODE))
+        else:
+            self.cur.intrinsic_eff = True
+            new = self.lift([v], lambda c: Val(f"(py_set_in_{path[0]} {code0} (fun n_ => py_set_{path[1]} n_ {c[0]}))", NODE, True))
+        full = (name,) + tuple(path)
+        keep = {p_ for p_ in env.fresh_nodes if p_[0] == name and p_[:len(full)] != full}
+        keep.update(full + p_[1:] for p_ in self.node_fresh_paths(name, value))
+        n = self.fresh(name + "_")
+
+        def cont(code):
+            en = env.bind(name, n, NODE)
+            en.fresh_nodes.update(keep)
+            return f"(let {n} := {code} in {self.block(rest, en, k)})"
+        return self.wrap(new, cont)
 
     def s_Assign(self, s, rest, env, k):
         if len(s.targets) != 1:
@@ -1740,7 +1801,15 @@ class Translator:
             if isinstance(s.value, (ast.List, ast.ListComp, ast.Dict)) or (
                     isinstance(s.value, ast.BinOp) and isinstance(s.value.op, ast.Add)):
                 pass
-            return self.assign(t.id, self.tr_value(s.value, env, t.id), rest, env, k, s)
+            return self.assign(t.id, self.tr_value(s.value, env, t.id), rest, env, k, s, self.node_fresh_paths(t.id, s.value))
+        if isinstance(t, ast.Attribute) and t.attr in ("left", "right"):
+            path, b = [], t
+            while isinstance(b, ast.Attribute) and b.attr in ("left", "right"):
+                path.append(b.attr)
+                b = b.value
+            path.reverse()
+            if isinstance(b, ast.Name) and b.id in env.vars and env.vars[b.id][1] == NODE and len(path) <= 2:
+                return self.assign_node_field(b.id, path, s.value, rest, env, k, s)
         if (isinstance(t, ast.Subscript) and isinstance(t.value, ast.Name) and t.value.id in self.local_containers
                 and t.value.id in env.vars):
             d = self.tr(t.value, env)
@@ -2670,6 +2739,9 @@ UNITS = [
      "files": [("transformations/glencoe_reader.py", {}, [])],
      "objects": {"transformations/glencoe_reader.py": {"GlencoeReader": ["_parse_ast_constraint", "_parse_tree",
                                                                           "_parse_constraints", "transform"]}}},
+    {"name": "fider", "imports": " Gen.Src_fm Format.Xml Gen.Tables_fide",
+     "files": [("transformations/featureide_reader.py", {}, [])],
+     "objects": {"transformations/featureide_reader.py": {"FeatureIDEReader": ["_parse_rule", "_read_constraints"]}}},
     {"name": "jsonr", "imports": " Gen.Src_fm", "pure_features": True,
      "files": [("transformations/json_writer.py", {}, []),
                ("transformations/json_reader.py", {}, ["parse_constraints", "parse_ast_constraint", "parse_tree",
